@@ -200,3 +200,131 @@ Proof.
   - discriminate.
 Qed.
 
+
+(* ========================================================================================== *)
+(* The two views of pendingFunctors_ and of the timer callbacks, connected                      *)
+(* ========================================================================================== *)
+(* In L2_unblocked_iteration_progress the C06 side (callback scripts [script], queue
+   [T.pending tq]) and the C09 side (functor ids: queue p, [hq tc CbRead] = what the timer
+   channel's read callback queued) are independent parameters.  Here they are tied together by
+   three explicit hypotheses under a naming [fun_of] of C09's ids by C06's functors:
+     T.pending tq = map fun_of p                                    (same queue at poll time)
+     due tq -> fire tq script = Ok (tq', _) -> T.pending tq' = T.pending tq ++ map fun_of (hq tc CbRead)
+                                                                     (same functors queued by the timer callbacks)
+     hq wc CbRead = []                                               (EventLoop::handleRead queues nothing)
+   Then the batch C09's doPendingFunctors runs is C06's queue after the expiry, in the same order;
+   and (last clause) THE STALE WAKE-UP CASE: empty queue, timerfd not due, w > 0 - the iteration
+   runs exactly handleRead of the wake-up channel, no functor, no timer, and leaves the counter 0. *)
+Theorem L2_iteration_views_connected :
+  forall h hq fb runs user qw wc tc wfd tfd st sp w rd p tq choice script (fun_of : nat -> T.pfun),
+  PQ.reachEC st sp -> PP.loop_channels sp wc tc wfd tfd ->
+  PP.others_quiet sp wc tc (env_of w rd tq) ->
+  runs wc = true -> runs tc = true -> (forall k, h wc k = []) -> (forall k, h tc k = []) ->
+  tq_reach tq ->
+  (forall log, (forall ck, In ck log -> ck = (wc, P.CbRead) \/ ck = (tc, P.CbRead)) ->
+     P.functors_ok fb sp (p ++ flat_map (fun ck => hq (fst ck) (snd ck)) log)) ->
+  (0 < w)%N \/ due tq ->
+  hq wc P.CbRead = [] ->
+  T.pending tq = map fun_of p ->
+  (due tq -> forall tq' ev, T.fire tq script = T.Ok (tq', ev) ->
+     T.pending tq' = T.pending tq ++ map fun_of (hq tc P.CbRead)) ->
+  exists st' e' p' tq' act log ran ev,
+    combined_iter h hq fb runs user qw wc tc wfd tfd st w rd p tq choice script
+      = Some (st', e', p', tq', (act, log, ran, ev)) /\
+    PQ.reachEC st' (P.spec_run sp (P.functors_ops fb ran)) /\
+    ran = p ++ (if dueb tq then hq tc P.CbRead else []) /\
+    T.pending tq' = map fun_of ran /\
+    p' = P.functors_queued fb ran /\
+    P.k_wake e' = ((if qw true false true
+                    then N.of_nat (length (if dueb tq then hq tc P.CbRead else [])) else 0)
+                   + (if qw true true true then N.of_nat (length p') else 0))%N /\
+    (p = [] -> ~ due tq ->
+       log = [(wc, P.CbRead)] /\ ran = [] /\ p' = [] /\ P.k_wake e' = 0%N /\ tq' = tq /\ ev = []).
+Proof. exact combined_progress_connected. Qed.
+Print Assumptions L2_iteration_views_connected.
+
+Theorem L2_dueb_def : forall tq,
+  dueb tq = match T.armed tq with Some x => (x <=? T.clk tq)%Z | None => false end /\
+  (dueb tq = true <-> due tq).
+Proof. exact (fun tq => conj eq_refl (dueb_due tq)). Qed.
+Print Assumptions L2_dueb_def.
+
+(* non-vacuity 1: the connecting hypotheses are satisfied.  Loop constructor state (timer channel 0,
+   wake-up channel 1); timer queue with one due timer whose callback queues a user functor
+   (script [[CQueue []]]); C09 says the timer channel's read callback queues functor 7; 7 stands
+   for that user functor.  Result: the batch is [7] on the C09 side and [PUser []] on the C06 side. *)
+Definition l2c_hq : nat -> P.cb -> list nat := fun c k => match c, k with 0, P.CbRead => [7] | _, _ => [] end.
+Definition l2c_fb : P.fnbody := fun i => ([], match i with 7 => [8] | _ => [] end).
+Definition l2c_fun_of (i : nat) : T.pfun := T.PUser [].
+Definition l2c_script : list (list T.cbop) := [[T.CQueue []]].
+Definition l2c_st0 : P.ep :=
+  match P.ep_run_current P.ep_init W.w_loop_init with P.Ok (st, _) => st | _ => P.ep_init end.
+
+Lemma l2c_functors_ok : forall sp ids, P.functors_ok l2c_fb sp ids.
+Proof. intros sp ids. revert sp. induction ids as [|i r IH]; intros sp; cbn; auto. Qed.
+
+Lemma l2c_st0_reach : PQ.reachEC l2c_st0 (P.spec_run P.spec0 W.w_loop_init).
+Proof.
+  destruct (PQ.run_reachEC W.w_loop_init P.ep_init P.spec0 PQ.reachEC_init W.w_loop_init_ok) as [st [outs [E R]]].
+  unfold l2c_st0. rewrite E. exact R.
+Qed.
+
+Example l2_ex_views_connected : exists tq st' e' p' tq' act log ev,
+  tq_reach tq /\ due tq /\ T.pending tq = map l2c_fun_of [] /\ l2c_hq 1 P.CbRead = [] /\
+  (forall tq1 ev1, T.fire tq l2c_script = T.Ok (tq1, ev1) ->
+     T.pending tq1 = T.pending tq ++ map l2c_fun_of (l2c_hq 0 P.CbRead)) /\
+  combined_iter (fun _ _ => []) l2c_hq l2c_fb W.all_run (fun _ _ e => e) P.queue_wakes 1 0 4 3
+    l2c_st0 0 (fun _ => 0%N) [] tq [] l2c_script = Some (st', e', p', tq', (act, log, [7], ev)) /\
+  T.pending tq' = [T.PUser []] /\ p' = [8] /\ P.k_wake e' = 1%N.
+Proof.
+  destruct l2_ex_loop_state as (_ & _ & HL & HQ).
+  destruct (T.run (T.init 1000) l2_tq_ops2) as [[tq evs]| |] eqn:E; try (vm_compute in E; discriminate).
+  assert (Hreach : tq_reach tq) by (exists 1000%Z, l2_tq_ops2, evs; exact E).
+  vm_compute in E. injection E as <- _.
+  match type of Hreach with tq_reach ?t => set (tq := t) in * end.
+  assert (Hdue : due tq) by (eexists; split; [vm_compute; reflexivity|vm_compute; discriminate]).
+  assert (Hscr : forall tq1 ev1, T.fire tq l2c_script = T.Ok (tq1, ev1) ->
+                   T.pending tq1 = T.pending tq ++ map l2c_fun_of (l2c_hq 0 P.CbRead)).
+  { intros tq1 ev1 H. vm_compute in H. injection H as <- _. reflexivity. }
+  destruct (combined_progress_connected (fun _ _ => []) l2c_hq l2c_fb W.all_run (fun _ _ e => e) P.queue_wakes
+              1 0 4 3 l2c_st0 _ 0%N (fun _ => 0%N) [] tq [] l2c_script l2c_fun_of
+              l2c_st0_reach HL (HQ _) eq_refl eq_refl (fun _ => eq_refl) (fun _ => eq_refl) Hreach
+              (fun log _ => l2c_functors_ok _ _) (or_intror Hdue) eq_refl eq_refl (fun _ => Hscr))
+    as (st' & e' & p' & tq' & act & log & ran & ev & H1 & _ & Hran & Hpend & Hp' & Hkw & _).
+  assert (Ed : dueb tq = true) by (apply dueb_due; exact Hdue).
+  rewrite Ed in Hran, Hkw. cbn [app] in Hran. subst ran.
+  exists tq, st', e', p', tq', act, log, ev.
+  split; [exact Hreach|]. split; [exact Hdue|]. split; [reflexivity|]. split; [reflexivity|]. split; [exact Hscr|].
+  split; [exact H1|]. split; [exact Hpend|]. split; [subst p'; reflexivity|]. subst p'. exact Hkw.
+Qed.
+
+(* non-vacuity 2, THE STALE WAKE-UP: the same loop state, wake-up counter 1, nothing queued, the
+   timer not yet due: the iteration runs handleRead of the wake-up channel only, the counter is 0
+   afterwards, no functor ran, the timer queue is untouched - and the next poll blocks *)
+Example l2_ex_stale_wakeup : exists tq st' e' p' tq' act ev,
+  tq_reach tq /\ ~ due tq /\
+  combined_iter (fun _ _ => []) l2c_hq l2c_fb W.all_run (fun _ _ e => e) P.queue_wakes 1 0 4 3
+    l2c_st0 1 (fun _ => 0%N) [] tq [] l2c_script = Some (st', e', p', tq', (act, [(1, P.CbRead)], [], ev)) /\
+  p' = [] /\ P.k_wake e' = 0%N /\ tq' = tq /\ ev = [] /\
+  P.ep_full st' (P.env_ready 4 3 (env_of (P.k_wake e') (fun _ => 0%N) tq')) = [].
+Proof.
+  destruct l2_ex_loop_state as (_ & _ & HL & HQ).
+  destruct (T.run (T.init 1000) l2_tq_ops) as [[tq evs]| |] eqn:E; try (vm_compute in E; discriminate).
+  assert (Hreach : tq_reach tq) by (exists 1000%Z, l2_tq_ops, evs; exact E).
+  vm_compute in E. injection E as <- _.
+  match type of Hreach with tq_reach ?t => set (tq := t) in * end.
+  assert (Hnd : ~ due tq).
+  { intros (x & Hx & Hle). vm_compute in Hx. injection Hx as <-. vm_compute in Hle. apply Hle. reflexivity. }
+  destruct (combined_progress_connected (fun _ _ => []) l2c_hq l2c_fb W.all_run (fun _ _ e => e) P.queue_wakes
+              1 0 4 3 l2c_st0 _ 1%N (fun _ => 0%N) [] tq [] l2c_script l2c_fun_of
+              l2c_st0_reach HL (HQ _) eq_refl eq_refl (fun _ => eq_refl) (fun _ => eq_refl) Hreach
+              (fun log _ => l2c_functors_ok _ _) (or_introl eq_refl) eq_refl eq_refl (fun Hd => False_ind _ (Hnd Hd)))
+    as (st' & e' & p' & tq' & act & log & ran & ev & H1 & HRe & _ & _ & _ & _ & Hstale).
+  destruct (Hstale eq_refl Hnd) as (-> & -> & -> & Hk & -> & ->).
+  exists tq, st', e', [], tq, act, []. split; [exact Hreach|]. split; [exact Hnd|]. split; [exact H1|].
+  split; [reflexivity|]. split; [exact Hk|]. split; [reflexivity|]. split; [reflexivity|].
+  rewrite Hk. cbn [P.functors_ops flat_map P.spec_run fold_left] in HRe.
+  apply (combined_blocks_iff st' (P.spec_run P.spec0 W.w_loop_init) 1 0 4 3 0%N (fun _ => 0%N) [] tq HRe HL
+           (fun H => False_ind _ (H eq_refl)) Hreach).
+  split; [reflexivity|]. split; [exact Hnd|apply HQ].
+Qed.
